@@ -40,7 +40,7 @@ def required_cells(tier):
     return (['fail:' + k for k in FAIL_KINDS] + ['prefix:' + (p or 'none') for p in set(PREFIXES)] +
             ['style:google', 'style:freeform', 'open:same-line', 'open:own-line', 'where:func', 'where:method',
              'where:class', 'where:module', 'where:deco', 'start-line-checks', 'part-offset-checks',
-             'blank-lines-before-first-block'])
+             'blank-lines-before-first-block', 'ignored-block-before-doctest'])
 
 
 def gen_doctest(rng, uid, fail_kind):
@@ -150,6 +150,13 @@ def gen_module(rng, seed):
                     body += ['Args:', '    a (int): thing', ''] + [''] * rng.choice([0, 0, 1, 2])
                 body += [rng.choice(['Example:', 'Doctest:', 'Examples:'])] + ['    ' + ln if ln else ln for ln in L] + ['']
             else:
+                if rng.random() < 0.3:
+                    # freeform parsing ignores the doctest under one of these labels; its lines (wants included)
+                    # still count for the position of what follows
+                    body += [rng.choice(['Ignore:', 'Script:', 'DisableDoctest:', 'Benchmark:', 'SkipDoctest:']),
+                             '    >>> ignored_%d = 1' % b, '    >>> print("ignored %d")' % b, '    ignored %d' % b] + \
+                            ['    second want line'] * rng.randint(0, 2) + ['', 'Prose after the ignored block.', '']
+                    feats.add('ignored-block-before-doctest')
                 body += L + ['']
                 if b < nblocks - 1:
                     body += ['Prose between.', '']
